@@ -113,6 +113,23 @@ func OracleC22(c *Cluster) (string, string) {
 			fmt.Sprintf("ProposeCommand for %s (region %d, store %d, request id %d) returned success carrying the result %q of a different command\n%s",
 				call.Spec.Tag, call.Spec.Region, call.Store, myID, e, c.describeCalls())
 	}
+	// election safety: at most one leader per term (two leaders of one term replicate
+	// different commands at the same index and term; followers cannot tell them apart)
+	for r := 1; r <= c.sc.Regions; r++ {
+		leaders := map[uint64]uint64{}
+		for _, id := range c.pids {
+			if regionOf(id) != r {
+				continue
+			}
+			if st := c.peers[id].Status(); st.RaftState.String() == "StateLeader" {
+				if other, ok := leaders[st.Term]; ok {
+					return fmt.Sprintf("two-leaders-in-one-term region=%d", r),
+						fmt.Sprintf("peers %d and %d are both leader of term %d\n%s", other, id, st.Term, c.describeCalls())
+				}
+				leaders[st.Term] = id
+			}
+		}
+	}
 	// committed prefixes of the replicas' raft logs agree: the same entry at the same index
 	// up to the smaller applied index (this is "the same sequence of committed commands"
 	// position by position, also where one of the replicas holds a no-op)
